@@ -283,6 +283,7 @@ namespace vh {
     {
         if (g_reporting) _exit(4);
         g_reporting = true;
+        if (g_gdb_on_fail) gdb_dump();
         std::string m = "std::terminate";
         if (auto ep = std::current_exception())
         {
